@@ -203,9 +203,49 @@ H("cubic_step", ["C12"], "quick", "congestion::cubic::step",
    ("has_prior", "bool"), ("prior_window", "u64"), ("op", "u8"), ("now_secs", "u32"), ("sent_secs", "u32"), ("bytes", "u32"), ("persistent", "bool"), ("ecn", "bool"), ("new_mtu", "u16")], 6,
   ["slow-start ack", "on_congestion_event", "on_mtu_update", "on_spurious_congestion_event"],
   ["Cubic::on_ack (slow start)", "Cubic::on_congestion_event", "Cubic::on_spurious_congestion_event", "Cubic::on_mtu_update", "Cubic::window", "State::cubic_k"],
-  "one event from every state with 2*mtu <= window < 2^40, mtu/new_mtu >= 1200; congestion-avoidance branch of on_ack outside the claim", timeout=900)
+  "one event from every state with 2*mtu <= window < 2^40, mtu/new_mtu >= 1200; congestion-avoidance branch of on_ack outside the claim", timeout=900,
+  stubs=[("f64::cbrt", "cbrt_any")], assumes=["f64::cbrt is stubbed by an arbitrary f64 (over-approximation; CBMC has no model of the C cbrt function)"])
 H("bbr_window_step", ["C12"], "quick", "congestion::bbr::window_step",
   [("initial_window", "u64"), ("mtu", "u16"), ("mode", "u8"), ("rec", "u8"), ("cwnd", "u64"), ("recovery_window", "u64"), ("op", "u8"), ("new_mtu", "u16"), ("acked", "u32"), ("lost", "u32"), ("in_flight", "u32")], 6,
   ["on_mtu_update", "calculate_recovery_window", "mtu update while in recovery outside Startup"],
   ["Bbr::on_mtu_update", "Bbr::window", "Bbr::calculate_recovery_window", "calculate_min_window"],
   "one step from every state with cwnd >= 4*mtu (and recovery_window >= 4*mtu while in recovery), modes Startup/Drain/ProbeBw (ProbeRtt's f64 BDP target outside the claim), mtu/new_mtu >= 1200")
+
+# ------------------------------------------------------------------ paths.rs (C07.a, C12.b, C03)
+H("path_anti_amplification", ["C07"], "quick", "connection::paths::anti_amplification",
+  [("validated", "bool"), ("total_sent", "u64"), ("total_recvd", "u64"), ("bytes_to_send", "u64")], 6,
+  ["unvalidated within budget", "blocked", "validated"], ["PathData::anti_amplification_blocked"],
+  "every counter < 2^62 (overflow of 3*total_recvd needs >= 2^64/3 received bytes on one unvalidated path: outside the bound)")
+H("path_in_flight_accounting", ["C12"], "quick", "connection::paths::in_flight_accounting",
+  [("bytes", "u64"), ("ack_eliciting", "u64"), ("path_gen", "u64"), ("pkt_gen", "u64"), ("size", "u16"), ("eliciting", "bool")], 6,
+  ["same path: exact inverse", "other path generation: untouched"], ["InFlight::insert", "InFlight::remove", "PathData::remove_in_flight"],
+  "every counter < 2^62, every packet size: u16, every generation pair")
+H("path_responses", ["C03"], "quick", "connection::paths::path_responses",
+  [("p1", "u64"), ("t1", "u64"), ("port1", "u16"), ("p2", "u64"), ("t2", "u64"), ("port2", "u16"), ("on_port", "u16")], 20,
+  ["reached", "same remote coalesced", "on-path pop", "off-path pop"],
+  ["PathResponses::push", "PathResponses::pop_on_path", "PathResponses::pop_off_path"], "two challenges, arbitrary packet numbers/tokens/ports")
+
+# ------------------------------------------------------------------ timer.rs, idle negotiation (C08)
+H("timer_table", ["C08"], "quick", "connection::timer::table",
+  [("i0", "u8"), ("s0", "u32"), ("i1", "u8"), ("s1", "u32"), ("i2", "u8"), ("s2", "u32"), ("n2", "u32"),
+   ("stop", "u8"), ("q", "u8"), ("now_s", "u32"), ("now_n", "u32")], 12,
+  ["reached", "nothing armed", "same timer set twice", "something expired"],
+  ["TimerTable::set", "TimerTable::get", "TimerTable::stop", "TimerTable::next_timeout", "TimerTable::is_expired", "Timer::VALUES"],
+  "three sets + one stop over all 9 timers, instants = arbitrary (u32 s, ns < 10^9) offsets from a base instant")
+H("negotiate_idle_timeout", ["C08"], "quick", "connection::negotiate_idle",
+  [("has_x", "bool"), ("x", "u16"), ("has_y", "bool"), ("y", "u16")], 6,
+  ["some timeout", "no timeout"], ["negotiate_max_idle_timeout"], "both values absent or any u16 milliseconds (wider values put 64-bit divisions by 1000 from Duration::from_millis into the formula)")
+
+# ------------------------------------------------------------------ cid_queue.rs (C03.g, C09)
+H("cidq_insert_step", ["C03", "C09"], "quick", "cid_queue::insert_step",
+  [("cursor", "u8"), ("offset", "u32"), ("occ", "[bool; 5]"), ("tag", "[u8; 5]"), ("has_tok", "[bool; 5]"),
+   ("sequence", "u32"), ("retire_prior_to", "u32"), ("new_tag", "u8"), ("probe", "u8")], 22,
+  ["stored, nothing retired", "Retired", "ExceedsLimit", "retired range reported"],
+  ["CidQueue::insert", "CidQueue::iter", "CidQueue::active", "CidQueue::active_seq"],
+  "one step from every ring state satisfying the invariant (any cursor, any occupancy of the 5 slots), offset / retire_prior_to <= sequence < 2^32; CIDs are 8 bytes built from one symbolic tag byte per slot")
+H("cidq_next_step", ["C03", "C09"], "quick", "cid_queue::next_step",
+  [("cursor", "u8"), ("offset", "u64"), ("occ", "[bool; 5]"), ("tag", "[u8; 5]"), ("has_tok", "[bool; 5]")], 22,
+  ["switched", "no other CID"], ["CidQueue::next", "CidQueue::iter", "CidQueue::active"],
+  "one step from every ring state satisfying the invariant")
+H("cidq_new_is_valid", ["C03", "C09"], "quick", "cid_queue::new_is_valid", [("t0", "u8"), ("t1", "u8")], 22,
+  ["reached"], ["CidQueue::new", "CidQueue::update_initial_cid", "CidQueue::next"], "base case of the induction")
